@@ -189,7 +189,8 @@ def body_header(case):
                 conf = NssConfig(**cd)
             with cut("results_table.init"):
                 tab = results_table.init(conf)
-            path = os.path.join(tmp, f"h{n}.fits")
+            # results are normally written to the same output path again and again (overwrite=True)
+            path = os.path.join(tmp, "h.fits" if case.get("same_path", True) else f"h{n}.fits")
             with quiet():
                 with cut("Table.write(fits)"):
                     tab.write(path, format="fits", overwrite=True)
@@ -213,6 +214,8 @@ def body_header(case):
         shutil.rmtree(tmp, ignore_errors=True)
     if len(case["configs"]) > 1:
         labels.add("several_configs_in_one_process")
+        if case.get("same_path", True):
+            labels.add("same_path_overwritten")
     return labels
 
 
@@ -427,7 +430,7 @@ run_case = st.fixed_dictionaries(
 SUBCHECKS = [
     SubCheck(
         "header",
-        st.fixed_dictionaries({"configs": st.lists(config_dict(), min_size=1, max_size=3)}),
+        st.fixed_dictionaries({"configs": st.lists(config_dict(), min_size=1, max_size=3), "same_path": st.sampled_from([True, True, False])}),
         body_header,
         lambda labels: bool(labels & {"lat!=long", "PowerSpectrum", "long_string"}),
         {"quick": 150, "thorough": 6000},
